@@ -525,3 +525,25 @@ func TestC14(t *testing.T) {
 		Stage[c14NestCase]{Name: "nested", Gen: c14GenNest, Run: c14RunNest, N: pick(6000, 150000)},
 	)
 }
+
+// --- native go-fuzz target (thorough tier): the coverage-guided mutator chooses the operands,
+// the stage's own Run function (reference model inside the target) judges them ---------------
+
+var c14FuzzFns = []string{"length", "substring1", "substring2", "indexOf", "toChars", "startsWith", "endsWith", "contains", "replace", "upper", "lower", "law-chars", "law-split", "law-index", "law-contains"}
+
+func FuzzC14(f *testing.F) {
+	f.Add("héllo", "l", "€", int32(1), int32(2), uint8(2))
+	f.Add("a😀b́c", "b", "", int32(2), int32(1), uint8(3))
+	f.Add("", "", "x", int32(0), int32(0), uint8(8))
+	f.Add("ǅⅧⒶ", "Ⓐ", "$1", int32(-1), int32(2147483647), uint8(0x88))
+	f.Add("abcabc", "bc", "\\", int32(3), int32(-1), uint8(0x1d))
+	f.Fuzz(func(t *testing.T, s, p, r string, start, ln int32, sel uint8) {
+		if len(s) > 48 || len(p) > 16 || len(r) > 16 || !utf8.ValidString(s) || !utf8.ValidString(p) || !utf8.ValidString(r) {
+			return
+		}
+		c := c14Case{Fn: c14FuzzFns[int(sel&0x0f)%len(c14FuzzFns)], S: s, T: p, R: r, Start: int(start), Len: int(ln),
+			Recv: []string{"lit", "var", "fhir.string", "lit"}[int(sel>>4)&3], ArgsV: sel&0x80 != 0}
+		fuzzCase(t, "C14", "random", c, c14Run)
+	})
+}
+
